@@ -302,6 +302,54 @@ func SelectOrder(n int) []int {
 	return ord
 }
 
+// MapOrder returns the keys of m in the order a rewritten `for k, v := range m` visits them. Go
+// leaves the order of a map iteration unspecified, so it is a choice of the environment: the
+// default is ascending order of the printed key; every other permutation (maps of up to 3
+// entries) or rotation (larger maps) is an alternative the explorer takes at the cost of one
+// deviation. Outside a controlled execution the default order is returned.
+func MapOrder[K comparable, V any](m map[K]V) []K {
+	keys := make([]K, 0, len(m))
+	for k := range m {
+		keys = append(keys, k)
+	}
+	if len(keys) < 2 {
+		return keys
+	}
+	printed := make(map[K]string, len(keys))
+	for _, k := range keys {
+		printed[k] = fmt.Sprintf("%020v", k)
+	}
+	sort.Slice(keys, func(i, j int) bool { return printed[keys[i]] < printed[keys[j]] })
+	s := current.Load()
+	if s == nil || Self() == nil {
+		return keys
+	}
+	n := len(keys)
+	if n <= 3 {
+		alts := 2
+		if n == 3 {
+			alts = 6
+		}
+		c := s.x.ChooseCost(alts, 1, "map-order")
+		// c-th permutation in lexicographic order
+		rest := append([]K{}, keys...)
+		out := make([]K, 0, n)
+		f := alts / n
+		for len(rest) > 0 {
+			i := c / f
+			c %= f
+			out = append(out, rest[i])
+			rest = append(rest[:i], rest[i+1:]...)
+			if len(rest) > 0 {
+				f /= len(rest)
+			}
+		}
+		return out
+	}
+	c := s.x.ChooseCost(n, 1, "map-order")
+	return append(append([]K{}, keys[c:]...), keys[:c]...)
+}
+
 // ZeroOf returns the zero value of a channel's element type (for rewritten selects).
 func ZeroOf[T any](ch <-chan T) (z T) { return }
 
@@ -329,6 +377,7 @@ func snapshot(buf *[]byte) map[int64]string {
 func parseStatuses(b []byte) map[int64]string {
 	m := make(map[int64]string, 16)
 	prefix := []byte("goroutine ")
+	var semaID int64 = -1 // goroutine whose frames are being inspected (status "semacquire")
 	for len(b) > 0 {
 		nl := bytes.IndexByte(b, '\n')
 		var line []byte
@@ -338,8 +387,17 @@ func parseStatuses(b []byte) map[int64]string {
 			line, b = b[:nl], b[nl+1:]
 		}
 		if !bytes.HasPrefix(line, prefix) {
+			if semaID >= 0 {
+				if len(line) == 0 {
+					semaID = -1
+				} else if bytes.HasPrefix(line, []byte("sync.runtime_Semacquire")) || bytes.HasPrefix(line, []byte("internal/poll.runtime_Semacquire")) {
+					m[semaID] = "semacquire"
+					semaID = -1
+				}
+			}
 			continue
 		}
+		semaID = -1
 		rest := line[len(prefix):]
 		sp := bytes.IndexByte(rest, ' ')
 		if sp < 0 {
@@ -359,6 +417,14 @@ func parseStatuses(b []byte) map[int64]string {
 			st = st[:c]
 		}
 		m[id] = string(st)
+		if m[id] == "semacquire" {
+			// The runtime parks goroutines with this status for its own short-lived semaphores too
+			// (gcStart / stopTheWorld waiting for worldsema while a GC phase change is in flight).
+			// Such a goroutine resumes by itself: it is running, not parked. Only a wait entered
+			// through the sync or poll semaphore entry points counts as parked.
+			m[id] = "semacquire (runtime)"
+			semaID = id
+		}
 	}
 	return m
 }
@@ -421,6 +487,9 @@ func (s *Sched) waitQuiescent(buf *[]byte) {
 			}
 			if parkedStatus[st] {
 				continue
+			}
+			if st == "semacquire (runtime)" {
+				RuntimeSemaWaits.Add(1)
 			}
 			if st == "sleep" {
 				s.mu.Unlock()
@@ -650,6 +719,19 @@ func (s *Sched) teardown(buf *[]byte) {
 		runtime.Gosched()
 	}
 }
+
+func init() {
+	mc.WriteHooks = append(mc.WriteHooks, func(r *mc.Report) {
+		r.SetPart("scheduler", map[string]any{
+			"runtime_semaphore_waits_treated_as_running": RuntimeSemaWaits.Load(),
+			"goroutines_not_terminated_at_teardown":      LeakedTotal.Load(),
+		})
+	})
+}
+
+// RuntimeSemaWaits counts snapshots in which a controlled thread was found waiting on one of the
+// runtime's own semaphores (GC phase change); it is then treated as running, see parseStatuses.
+var RuntimeSemaWaits atomic.Int64
 
 // LeakedTotal counts goroutines of finished executions that could not be terminated (they stay
 // parked for the rest of the process; harmless for verdicts, they only cost memory and snapshot time).
